@@ -82,8 +82,8 @@ def _corrected_lebedev():
     ns = dict(LN.__dict__)
     exec(src, ns)
     fixed = ns['loadPoints']
-    if not _rule_is_exact(fixed):
-        raise RuntimeError('harness-side repair of loadPoints does not give an exact rule')
+    # if the tables themselves are wrong (e.g. a mistyped weight) the repaired expansion is not exact either: that is
+    # reported by the 'lebedev-tables' stage (and shows in the other stages), it is not a harness error
     return fixed
 
 
